@@ -103,10 +103,22 @@ type gscript struct {
 	unquotable  bool
 	updates     int
 	sig         string
+	setupCd     bool // Params.Setup moves the script's starting directory to $WORK/startdir (as cmd/go's tests do)
 }
 
 func gen(r *rand.Rand, idx int) *gscript {
-	g := &gscript{name: fmt.Sprintf("u%d", idx)}
+	g := &gscript{name: fmt.Sprintf("u%d", idx), setupCd: r.Intn(4) == 0}
+	// ar spells the name of an archive entry as the script has to write it: entries are unpacked
+	// relative to $WORK, the script may start elsewhere
+	ar := func(name string) string {
+		if !g.setupCd {
+			return name
+		}
+		if r.Intn(2) == 0 {
+			return "$WORK/" + name
+		}
+		return "../" + name
+	}
 	k := 2 + r.Intn(5)
 	type golden struct {
 		name string
@@ -169,12 +181,14 @@ func gen(r *rand.Rand, idx int) *gscript {
 				actual = contents[r.Intn(len(contents))]
 			}
 			src := emitActual(actual)
-			spelled := gd.name
+			spelled := ar(gd.name)
 			switch r.Intn(5) {
 			case 0:
 				spelled = "$WORK/" + gd.name
 			case 1:
-				spelled = "./" + gd.name
+				if !g.setupCd {
+					spelled = "./" + gd.name
+				}
 			}
 			fmt.Fprintf(&sb, "cmp %s %s\n", src, spelled)
 			if seenActuals[gd.name] == nil {
@@ -192,12 +206,12 @@ func gen(r *rand.Rand, idx int) *gscript {
 			case 0:
 				// against the archive entry that is never a golden of a plain cmp (so it differs in every run)
 				if extra.data != actual {
-					fmt.Fprintf(&sb, "! cmp %s %s\n", src, extra.name)
+					fmt.Fprintf(&sb, "! cmp %s %s\n", src, ar(extra.name))
 					kinds = append(kinds, "negcmp")
 				}
 			case 1:
 				if actual == gd.data && !strings.Contains(actual, "$") {
-					fmt.Fprintf(&sb, "cmpenv %s %s\n", src, gd.name)
+					fmt.Fprintf(&sb, "cmpenv %s %s\n", src, ar(gd.name))
 					kinds = append(kinds, "cmpenv")
 				}
 			case 2:
@@ -216,21 +230,21 @@ func gen(r *rand.Rand, idx int) *gscript {
 		src := emitActual(actual)
 		switch r.Intn(3) {
 		case 0:
-			fmt.Fprintf(&sb, "cmpenv %s %s\n", src, gd.name)
+			fmt.Fprintf(&sb, "cmpenv %s %s\n", src, ar(gd.name))
 			kinds = append(kinds, "fail-cmpenv")
 		case 1:
-			fmt.Fprintf(&sb, "cp %s outside\ncp %s outside\ncmp %s outside\n", gd.name, gd.name, src)
+			fmt.Fprintf(&sb, "cp %s outside\ncp %s outside\ncmp %s outside\n", ar(gd.name), ar(gd.name), src)
 			kinds = append(kinds, "fail-outside")
 		default:
 			src2 := emitActual(gd.data)
-			fmt.Fprintf(&sb, "! cmp %s %s\n", src2, gd.name)
+			fmt.Fprintf(&sb, "! cmp %s %s\n", src2, ar(gd.name))
 			kinds = append(kinds, "fail-negcmp-equal")
 		}
 		g.wantFail = true
 	}
 	if !g.wantFail && r.Intn(3) == 0 {
 		// the file of an entry that is no golden changes on disk during the run: the archive entry must not follow it
-		sb.WriteString("exec vhelper out 'scribble'\ncp stdout input.txt\n")
+		fmt.Fprintf(&sb, "exec vhelper out 'scribble'\ncp stdout %s\n", ar("input.txt"))
 		kinds = append(kinds, "disk-change")
 	}
 	comment := sb.String()
@@ -267,6 +281,9 @@ func gen(r *rand.Rand, idx int) *gscript {
 			}
 		}
 	}
+	if g.setupCd {
+		kinds = append(kinds, "setup-cd")
+	}
 	g.sig = strings.Join(kinds, ",")
 	return g
 }
@@ -289,8 +306,18 @@ func eqArchive(a, b *xt.Archive) string {
 	return ""
 }
 
-func runOne(file string, update bool, style tsh.Style) *tsh.RecT {
+func runOne(file string, update bool, style tsh.Style, setupCd bool) *tsh.RecT {
 	p := testscript.Params{Files: []string{file}, UpdateScripts: update}
+	if setupCd {
+		p.Setup = func(env *testscript.Env) error {
+			d := filepath.Join(env.WorkDir, "startdir")
+			if err := os.MkdirAll(d, 0o777); err != nil {
+				return err
+			}
+			env.Cd = d
+			return nil
+		}
+	}
 	root := tsh.NewRoot(style, false, false)
 	root.Run("batch", func(t testscript.T) { testscript.RunT(t, p) })
 	root.Release()
@@ -303,7 +330,7 @@ func runOne(file string, update bool, style tsh.Style) *tsh.RecT {
 func main() {
 	tsh.Main("C16", "exploration", 10*time.Minute, func(r *vlib.Run) {
 		run = r
-		r.Rule("scripts with 2-6 golden entries (some nested names) plus a data entry; actual contents come from stdout, stderr or a file and are drawn from empty / newline-terminated / CRLF / invalid UTF-8 / '>'-prefixed / no-final-newline / marker-line contents; goldens match or not, some are compared twice (last actual wins), interleaved with '! cmp', matching 'cmpenv' and comparisons against files created at run time; 10% dedicated scenarios in which the only mismatch must not be repaired (cmpenv, file outside the archive, '! cmp' of equal files), 10% with content that cannot be quoted. Non-trivial = distinct sequence of (update content / match / other) kinds with at least one update or a dedicated scenario.")
+		r.Rule("scripts with 2-6 golden entries (some nested names) plus a data entry; actual contents come from stdout, stderr or a file and are drawn from empty / newline-terminated / CRLF / invalid UTF-8 / '>'-prefixed / no-final-newline / marker-line contents; goldens match or not, some are compared twice (last actual wins), interleaved with '! cmp', matching 'cmpenv' and comparisons against files created at run time; a quarter of the scripts start in $WORK/startdir because Params.Setup moved Env.Cd there (archive entries are then spelled ../name or $WORK/name); 10% dedicated scenarios in which the only mismatch must not be repaired (cmpenv, file outside the archive, '! cmp' of equal files), 10% with content that cannot be quoted. Non-trivial = distinct sequence of (update content / match / other) kinds with at least one update or a dedicated scenario.")
 		r.Assume("content that has marker lines and no final newline (or invalid UTF-8 with marker lines) cannot be represented by any implementation: for it only 'the script file is not corrupted' is asserted")
 		base := vlib.Scratch()
 		rng := r.Rand("scripts")
@@ -315,7 +342,7 @@ func main() {
 			os.MkdirAll(dir, 0o777)
 			file := filepath.Join(dir, g.name+".txt")
 			os.WriteFile(file, []byte(g.text), 0o666)
-			sub := runOne(file, true, tsh.Style(i%2))
+			sub := runOne(file, true, tsh.Style(i%2), g.setupCd)
 			r.Eval(1)
 			if g.updates > 0 || g.wantFail {
 				r.Distinct(g.sig)
@@ -389,7 +416,7 @@ func main() {
 				}
 				if g.rerunPasses {
 					nRerun++
-					sub2 := runOne(file, false, tsh.Style((i+1)%2))
+					sub2 := runOne(file, false, tsh.Style((i+1)%2), g.setupCd)
 					again, _ := os.ReadFile(file)
 					if sub2 == nil || sub2.Verdict() != "pass" {
 						lg := ""
